@@ -331,7 +331,9 @@ std::vector<float> spreadCells(const std::vector<float> &targets,
       continue;
     }
     dem += 0.5f * curDemand * invTotalDemand;
-    coords[c] = dem * maxCoord + (1.0f - dem) * minCoord;
+    // Rounding may push the accumulated share past 1: keep the cell in the bin
+    float coord = dem * maxCoord + (1.0f - dem) * minCoord;
+    coords[c] = std::min(std::max(coord, minCoord), maxCoord);
     dem += 0.5f * curDemand * invTotalDemand;
   }
   return coords;
